@@ -246,7 +246,7 @@ func TestC10(t *testing.T) {
 		for i := range scs {
 			scs[i].MinB, scs[i].MaxB, scs[i].Budget = 1, 1, 25*time.Second
 			if thorough {
-				scs[i].MinB, scs[i].MaxB, scs[i].Budget = 1, 2, 150*time.Second
+				scs[i].MinB, scs[i].MaxB, scs[i].Budget = 1, 2, 40*time.Second
 			}
 		}
 		return scs
